@@ -122,9 +122,11 @@ def _key(e: ast.expr) -> str:
                 parts.append(k)
         return "(" + (" and " if isinstance(e.op, ast.And) else " or ").join(sorted(parts)) + ")"
     if isinstance(e, ast.Compare) and len(e.ops) == 1 and isinstance(e.ops[0], (ast.Eq, ast.NotEq)) and isinstance(e.comparators[0], ast.Constant) \
-            and e.comparators[0].value == 0 and type(e.comparators[0].value) is int and isinstance(e.left, ast.BinOp) \
-            and isinstance(e.left.op, (ast.Mod, ast.BitAnd, ast.BitOr, ast.BitXor, ast.LShift, ast.RShift, ast.FloorDiv)):
-        # for the integers these operators yield, `x != 0` is the truth of x and `x == 0` its negation
+            and e.comparators[0].value == 0 and type(e.comparators[0].value) is int and ((isinstance(e.left, ast.BinOp) \
+            and isinstance(e.left.op, (ast.Mod, ast.BitAnd, ast.BitOr, ast.BitXor, ast.LShift, ast.RShift, ast.FloorDiv))) or isinstance(e.left, (ast.Name, ast.Attribute))):
+        # for the integers these operators yield, `x != 0` is the truth of x and `x == 0` its negation; a plain name compared with
+        # the integer 0 is taken for a number as well (the key only decides whether the reference's spelling of the same test is
+        # adopted)
         return _key(e.left) if isinstance(e.ops[0], ast.NotEq) else "not " + _key(e.left)
     if isinstance(e, ast.Compare) and len(e.ops) == 1:
         l, r, op = _u(e.left), _u(e.comparators[0]), type(e.ops[0])
@@ -1559,6 +1561,17 @@ def enumerate_to_counter(fn: ast.FunctionDef, ref_fn: dict, known) -> None:
                 continue
             after = [x for later in blk[i + 1:] for x in ast.walk(later)]
             if any(isinstance(x, ast.Name) and x.id == cnt and isinstance(x.ctx, ast.Load) for x in after):
+                # the counter is read after the loop: fine when it was set to start - 1 just before the loop (then it holds the number
+                # of items, counted from start - 1, also for an empty iterable) -- the increment goes to the top of the body
+                prev = blk[i - 1] if i > 0 else None
+                if isinstance(prev, ast.Assign) and len(prev.targets) == 1 and isinstance(prev.targets[0], ast.Name) and prev.targets[0].id == cnt \
+                        and isinstance(prev.value, ast.Constant) and type(prev.value.value) is int and type(start.value) is int and prev.value.value == start.value - 1 \
+                        and not any(isinstance(x, ast.Name) and x.id == cnt and isinstance(x.ctx, ast.Store) for x in inner):
+                    st.target = st.target.elts[1]
+                    st.iter = it
+                    st.body.insert(0, ast.AugAssign(target=ast.Name(id=cnt, ctx=ast.Store()), op=ast.Add(), value=ast.Constant(value=1)))
+                    ast.fix_missing_locations(fn)
+                    return enumerate_to_counter(fn, ref_fn, known)
                 continue
             st.target = st.target.elts[1]
             st.iter = it
@@ -2153,11 +2166,71 @@ def rename_fresh_members(tree: ast.Module, ref_mod: dict) -> None:
 
 
 # ----------------------------------------------------------------------------------------------- statement <-> expression forms
+def _adopt_arithmetic_spelling(fn: ast.FunctionDef, ref_fn: dict) -> None:
+    """Equal-valued spellings of integer arithmetic, taken over from the reference function where that makes the expression read as one
+    of its own: `e << k` <-> `e * 2**k` (k a literal), `e * 8` <-> `e << 3`; `e & F == F` / `e & F != 0` <-> `bool(e & F)` for a
+    single-bit F (a literal or a module constant); `(a, b) = divmod(x, n)` is left alone."""
+    ref_src = ref_fn.get("src", "")
+    if not ref_src:
+        return
+    try:
+        ref_exprs = {ast.unparse(x) for x in ast.walk(ast.parse(ref_src)) if isinstance(x, ast.expr)}
+    except SyntaxError:
+        return
+
+    class _T(ast.NodeTransformer):
+        def visit_BinOp(self, node):
+            self.generic_visit(node)
+            if ast.unparse(node) in ref_exprs:
+                return node
+            if isinstance(node.op, ast.LShift) and isinstance(node.right, ast.Constant) and type(node.right.value) is int and 0 < node.right.value < 32:
+                alt = ast.BinOp(left=node.left, op=ast.Mult(), right=ast.Constant(value=1 << node.right.value))
+                if ast.unparse(alt) in ref_exprs:
+                    return ast.copy_location(alt, node)
+            if isinstance(node.op, ast.Mult) and isinstance(node.right, ast.Constant) and type(node.right.value) is int and node.right.value > 1 \
+                    and node.right.value & (node.right.value - 1) == 0:
+                alt = ast.BinOp(left=node.left, op=ast.LShift(), right=ast.Constant(value=node.right.value.bit_length() - 1))
+                if ast.unparse(alt) in ref_exprs:
+                    return ast.copy_location(alt, node)
+            return node
+
+        def visit_Compare(self, node):
+            self.generic_visit(node)
+            if ast.unparse(node) in ref_exprs:
+                return node
+            if len(node.ops) == 1 and isinstance(node.left, ast.BinOp) and isinstance(node.left.op, ast.BitAnd):
+                f_ = node.left.right
+                c_ = node.comparators[0]
+                same_mask = isinstance(node.ops[0], ast.Eq) and ast.unparse(c_) == ast.unparse(f_)
+                nonzero = isinstance(node.ops[0], ast.NotEq) and isinstance(c_, ast.Constant) and c_.value == 0 and type(c_.value) is int
+                if same_mask or nonzero:
+                    alt = ast.Call(func=ast.Name(id="bool", ctx=ast.Load()), args=[node.left], keywords=[])
+                    if ast.unparse(alt) in ref_exprs and (nonzero or _single_bit(fn, f_)):
+                        return ast.copy_location(alt, node)
+            return node
+    for i, st in enumerate(fn.body):
+        fn.body[i] = _T().visit(st)
+    ast.fix_missing_locations(fn)
+
+
+def _single_bit(fn, f_) -> bool:
+    """f_ is a power of two: an integer literal, or a name the enclosing module binds once to one (looked up through the function's
+    module when the canonicaliser attached it)."""
+    if isinstance(f_, ast.Constant) and type(f_.value) is int:
+        return f_.value > 0 and f_.value & (f_.value - 1) == 0
+    consts = getattr(fn, "_module_int_consts", None)
+    if isinstance(f_, ast.Name) and consts is not None and f_.id in consts:
+        v = consts[f_.id]
+        return v > 0 and v & (v - 1) == 0
+    return False
+
+
 def normalise_expression_forms(fn: ast.FunctionDef, ref_fn: dict) -> None:
     """`return A if c else B`  <->  `if c: return A` / `else: return B`, and `x = []` + `for v in it: x.append(e)` ->
     `x = [e for v in it]`, chosen so that the function has the form the reference function has."""
     stmt_keys = set(ref_fn.get("stmt_tests", []))
     expr_keys = set(ref_fn.get("ifexp_tests", []))
+    _adopt_arithmetic_spelling(fn, ref_fn)
     # a conditional expression whose test the reference has the other way round
     for ie in [x for x in ast.walk(fn) if isinstance(x, ast.IfExp)]:
         k, nk = _key(ie.test), _key(negate(ie.test))
